@@ -28,6 +28,7 @@ rand = "0.8"
 tokio = { version = "1", features = ["full"] }
 bit-vec = "0.6"
 assert_matches = "1.5.0"
+async-trait = "0.1"
 num-bigint = "0.4"
 prost = "0.12"
 time = "0.3"
